@@ -1,6 +1,7 @@
 #!/bin/bash
 # Makes import-aliased copies of hashicorp/memberlist and cenkalti/backoff from
-# the module cache: the only edit is "math/rand" -> rand "verif/sim/simrand".
+# the module cache: the edits are "math/rand" -> rand "verif/sim/simrand" and the
+# suspicion-timer salt below.
 set -euo pipefail
 V=$(cd "$(dirname "$0")/.." && pwd)
 MC=${GOMODCACHE:-/root/go/pkg/mod}
@@ -16,5 +17,9 @@ find "$T" -type d -empty -delete
 chmod -R u+w "$T"
 sed -i 's#^\t"math/rand"$#\trand "verif/sim/simrand"#' "$T/memberlist/state.go" "$T/memberlist/util.go"
 sed -i 's#^\t"math/rand/v2"$#\trand "verif/sim/simrand"#' "$T/backoff/exponential.go"
+# the suspicion timer is a multiple of the probe interval and starts on a probe
+# tick: move it off the tick (no two independent timers share an instant)
+sed -i 's#s.timer = time.AfterFunc(timeout, s.timeoutFn)#s.timer = time.AfterFunc(timeout+1777, s.timeoutFn) // verif: off the probe tick, see bin/mkthird.sh#' "$T/memberlist/suspicion.go"
+grep -q 'timeout+1777' "$T/memberlist/suspicion.go" || { echo "suspicion timer patch did not apply" >&2; exit 2; }
 if grep -rn '"math/rand' "$T" --include=*.go; then echo "unpatched math/rand import left" >&2; exit 2; fi
 echo "third_party ready"
